@@ -1,11 +1,111 @@
-(** Property C08 — placeholder while the proofs are being written (replaced below). *)
-From Coq Require Import ZArith List String.
-From LV Require Import Base.Conc Base.Events Model.Segmented.
+(** Property C08 — SegmentedQueue never loses, invents or double-dequeues an item; when an item is dequeued, fewer
+    than quasi-factor items whose enqueue had completed before its own enqueue began are still in the queue;
+    dequeue reports empty only if every item whose enqueue completed before the call began has been dequeued by the
+    time the call returns.
+
+    Only statements here; proofs live in LV.Proofs.Segmented{Base,Steps,Safe,Main}.  Model: LV.Model.Segmented
+    (cds::intrusive::SegmentedQueue<cds::gc::HP>, one atomic access per step; tied to /repo by the step
+    correspondence of checks/C08.py).
+
+    Vocabulary.  An item is (enqueuing thread, index of the enqueue in that thread, value).  The trace holds the
+    client events  inv_enq x / ret_enq x / inv_deq t k / ret_deq t k (item x | empty).
+      [cptr g s i = Some x]     cell i of segment s holds a pointer to x (marked or not);
+      [marked g x]              some cell holds x with the "deleted" mark: x was taken by a dequeue (the mark CAS
+                                is the moment x is dequeued);
+      [unmarked_in g x]         some cell holds x without the mark: x is still in the queue;
+      [count_ret x tr]          number of dequeue responses in tr that returned x;
+      [completed_before tr e1 e2]  e1 occurred at a moment when e2 had not occurred yet (and e2 occurred later);
+      [pending_deq tr t k]      dequeue k of thread t was invoked and has not responded.
+    Quantifiers: EVERY schedule ([Conc.reach]: every sequence of thread choices), any number of threads, any client
+    programs of enqueue/dequeue operations, every loop fuel, every constructor argument [arg]; the queue works with
+    k = [ceil2 arg] cells per segment (the rounding of the C++ constructor; k = arg when arg is a power of two,
+    [C08_quasi_factor_rounding]).  Hypothesis [prog_ok k ths]: in every round of every operation the permutation
+    generator enumerates exactly the cell indices below k ([perm_ok]); the generator is a trait in the C++ code, and
+    every program the harness can express satisfies the hypothesis ([C08_harness_programs_ok]).
+
+    Memory-safety hypothesis [smr_safe] (DESIGN 4), built into the model: segments come from a never-reusing
+    allocator, i.e. a segment is not recycled while a thread that validated a hazard-pointer guard on it can still
+    reach it.  The guard traffic on segments is modelled (and checked step by step against the real code) but
+    reclamation itself is not; that no guarded object is freed is the content of C01/C02. *)
+From Coq Require Import ZArith List String Bool Lia.
+From LV Require Import Base.Conc Base.Events Model.Segmented
+     Proofs.SegmentedBase Proofs.SegmentedSteps Proofs.SegmentedSafe Proofs.SegmentedMain.
 Import ListNotations.
-Local Open Scope Z_scope.
 Local Open Scope string_scope.
 
-Example C08_model_runs :
-  let r := Segmented.run_case [2; 0; 100] [[[1;10;0]; [1;11;0]; [2;0]]; [[2;1]]] [0;1;0;1;1;0;0;1]%nat 1000 in
-  snd r = true /\ List.length (filter (is_cli "ret_deq") (map snd (fst r))) = 2%nat.
-Proof. vm_compute. split; reflexivity. Qed.
+(** Conservation.  In every reachable configuration:
+    (1) an item whose enqueue has returned sits in a cell;                      [never lost]
+    (2) an item sits in at most one cell;
+    (3) cells only hold items whose enqueue was invoked;                        [never invented]
+    (4) no item is returned by two dequeues;                                    [never double-dequeued]
+    (5) a returned item is marked in its cell (hence, by (2), not in any unmarked cell) and was enqueued;
+    (6) a marked item was returned by exactly one dequeue, or the dequeue that marked it is still running.
+    So every enqueued item is in exactly one unmarked cell, or was taken by exactly one dequeue. *)
+Theorem C08_segq_conservation :
+  forall (fuel arg : nat) (ths : list (list Segmented.op)) c,
+    prog_ok (ceil2 arg) ths -> Conc.reach (Segmented.init_cfg fuel arg ths) c ->
+    let g := Conc.shared c in let tr := Conc.trace c in
+    (forall x, In (ev_ret_enq x) (evs tr) -> inserted g x) /\
+    (forall x s i s' i', cptr g s i = Some x -> cptr g s' i' = Some x -> s = s' /\ i = i') /\
+    (forall x, inserted g x -> In (ev_inv_enq x) (evs tr)) /\
+    (forall x, count_ret x tr <= 1) /\
+    (forall x, 1 <= count_ret x tr -> marked g x /\ In (ev_inv_enq x) (evs tr)) /\
+    (forall x, marked g x -> count_ret x tr = 1 \/ (count_ret x tr = 0 /\ exists t k, pending_deq tr t k)).
+Proof. exact segq_conservation. Qed.
+Print Assumptions C08_segq_conservation.
+
+(** Quasi bound.  Whenever x has been dequeued (its cell is marked), the items y whose enqueue completed before x's
+    enqueue began and that are still in the queue (in an unmarked cell) number fewer than k.  The set of such y only
+    shrinks after the mark CAS (marks are permanent and "completed before x began" is fixed once x began), so this
+    statement over every reachable configuration is the statement "at the moment x is dequeued" evaluated in the
+    configuration right after the CAS. *)
+Theorem C08_segq_quasi_bound :
+  forall (fuel arg : nat) (ths : list (list Segmented.op)) c,
+    prog_ok (ceil2 arg) ths -> Conc.reach (Segmented.init_cfg fuel arg ths) c ->
+    let g := Conc.shared c in let tr := Conc.trace c in
+    forall x, marked g x ->
+    forall ys, NoDup ys ->
+      (forall y, In y ys -> completed_before tr (ev_ret_enq y) (ev_inv_enq x) /\ unmarked_in g y) ->
+      List.length ys < ceil2 arg.
+Proof. exact segq_quasi_bound. Qed.
+Print Assumptions C08_segq_quasi_bound.
+
+(** Meaning of "empty".  If dequeue k of thread t has returned empty, every item whose enqueue completed before
+    that dequeue was invoked has been dequeued (marks are permanent, so "by the time the call returns" is "in every
+    configuration from the response on"). *)
+Theorem C08_segq_empty_meaning :
+  forall (fuel arg : nat) (ths : list (list Segmented.op)) c,
+    prog_ok (ceil2 arg) ths -> Conc.reach (Segmented.init_cfg fuel arg ths) c ->
+    let g := Conc.shared c in let tr := Conc.trace c in
+    forall t k y, In (ev_ret_deq_empty t k) (evs tr) ->
+      completed_before tr (ev_ret_enq y) (ev_inv_deq t k) -> marked g y.
+Proof. exact segq_empty_meaning. Qed.
+Print Assumptions C08_segq_empty_meaning.
+
+(** the quasi factor used is the constructor argument rounded up to a power of two, as in the C++ constructor *)
+Theorem C08_quasi_factor_rounding :
+  (forall j, ceil2 (2 ^ j) = 2 ^ j) /\ (forall n, n <= ceil2 n) /\
+  ceil2 2 = 2 /\ ceil2 3 = 4 /\ ceil2 4 = 4 /\ ceil2 5 = 8 /\ ceil2 8 = 8.
+Proof. split; [exact ceil2_pow2|]. split; [exact ceil2_ge|]. repeat split. Qed.
+Print Assumptions C08_quasi_factor_rounding.
+
+(** every program the correspondence driver can express (probing orders = rotations, as produced by
+    random2_permutation) satisfies the hypothesis of the three theorems *)
+Theorem C08_harness_programs_ok :
+  forall arg (ths : list (list (list Z))), prog_ok (ceil2 arg) (map (Segmented.decode_ops (ceil2 arg)) ths).
+Proof. exact decode_prog_ok. Qed.
+Print Assumptions C08_harness_programs_ok.
+
+(** non-vacuity: a concrete 3-thread run (k = 2) in which items are enqueued into two segments, dequeued out of
+    FIFO order, the first segment is removed and a dequeue reports empty; the hypotheses of the theorems hold *)
+Example C08_nonvacuous :
+  let ths := [[[1;10;1]; [1;11;0]; [1;12;0]; [2;0]]; [[2;1]; [2;0]; [2;0;0]]; [[2;0]]]%Z in
+  let r := Segmented.run_case [2; 0; 100]%Z ths [0;0;0;1;2;1]%nat 4000 in
+  snd r = true /\
+  List.length (filter (fun e => Z.eqb (nth 2 (match e with EvCli _ a => a | _ => [] end) 7%Z) 1 && is_cli "ret_deq" e) (map snd (fst r))) = 3%nat /\
+  1 <= List.length (filter (fun e => Z.eqb (nth 2 (match e with EvCli _ a => a | _ => [] end) 7%Z) 0 && is_cli "ret_deq" e) (map snd (fst r))) /\
+  prog_ok (ceil2 2) (map (Segmented.decode_ops (ceil2 2)) ths).
+Proof.
+  cbv zeta. split; [vm_compute; reflexivity|]. split; [vm_compute; reflexivity|]. split; [vm_compute; lia|].
+  apply decode_prog_ok.
+Qed.
